@@ -126,7 +126,7 @@ package ipfshttp
 
 // ---- C15: the section's saved form: every setting is written from the field of the same name ----
 //@ func (cfg *Config) toJSONConfig
-//@   property C15
+//@   property C15 C16
 //@   requires cfg != nil
 //@   ensures [node-multiaddress] err == nil ==> jcfg != nil && jcfg.NodeMultiaddress == cfg.NodeAddr.String()
 //@   ensures [connect-swarms-delay] err == nil ==> jcfg.ConnectSwarmsDelay == cfg.ConnectSwarmsDelay.String()
@@ -158,7 +158,7 @@ package ipfshttp
 //@   ensures [accepts-exactly-the-valid] err == nil <==> validIpfsCfg(cfg)
 //@   modifies nothing
 //@ func (cfg *Config) applyJSONConfig
-//@   property C15
+//@   property C15 C16
 //@   requires cfg != nil && jcfg != nil
 //@   ensures [accepted-is-valid] err == nil ==> validIpfsCfg(cfg)
 //@   ensures [node-multiaddress] err == nil ==> cfg.NodeAddr == libfn("multiaddr.NewMultiaddr", 0, jcfg.NodeMultiaddress)
